@@ -645,8 +645,13 @@ func ruleStaleDetection(c *Ctx) {
 		&calledEv{name: "RemoveOperator attempted after the conf-version comparison", match: instrCallMatcher(remove), reset: func(x ssa.Instruction) bool {
 			b, ok := x.(*ssa.BinOp)
 			return ok && b.Op == token.SUB && resultOfCall(getConf)(b.X) && resultOfCall(getConf)(b.Y)
-		}}},
-		func(h []bool) bool { return (h[0] || h[2]) && (h[1] || h[3]) },
+		}},
+		// Δ == 0 is within any accounting: both sides are unsigned
+		guardRel("Δconf_ver == 0", "== <=", func(v ssa.Value) bool {
+			b, ok := strip(v).(*ssa.BinOp)
+			return ok && b.Op == token.SUB && resultOfCall(getConf)(b.X) && resultOfCall(getConf)(b.Y)
+		}, isConstInt(0))},
+		func(h []bool) bool { return (h[0] || h[2]) && (h[1] || h[3] || h[4]) },
 		"an operator is kept only if its current step's precondition holds and the conf version advanced by no more than its steps account for (or its removal was attempted and it was no longer registered)")
 	n := len(callsIn(cs, false, remove))
 	c.Check(n >= 2, rule, "stale conditions in "+fnName(cs), "both conditions (precondition, conf-version accounting) cancel the operator", P.pos(cs.Pos()), fmt.Sprintf("%d removal sites", n))
